@@ -1,4 +1,144 @@
 /-
-  C08 — explicit graph export.  Property theorems only (filled in as proofs land).
+  C08 — explicit graph export (`BfsResult.all_states`, `edges_list`, `adjacency_matrix`, `get_edge_name`).
+  Property theorems only; proofs in `CvProofs/Export.lean`, evaluation of the 4-cycle in `CvProofs/ExportExample.lean`.
+
+  MODEL OBSERVATION.  `export_complete` and `export_partial` are FALSE as literally stated in the task: with
+  `max_layer_size_to_store = None` the code (and the model, `BfsCfg.storeLimit`) still uses the limit `10**15`, so a layer
+  with more than `10^15` states is not stored and `all_states` fails (`allStates = none`).  The exact extra condition is
+  "every layer that is not kept unconditionally has at most `10^15` states" (layer 0 is always kept; the last layer of
+  a COMPLETED run is always kept).  Both theorems are proved with this hypothesis (`hsmall`).
+  * `export_needs_store` proves that the hypothesis is necessary (for every graph and every store limit);
+  * the last `example` of this file exhibits a concrete graph (`exBig`, a layer of `10^15 + 1` states, analysed without
+    evaluation) on which all the other hypotheses hold and `allStates = none`;
+  * an evaluated counterexample with a small limit (`max_layer_size_to_store = 1` on the 4-cycle) is given as well;
+  * the general versions `export_complete_stored` / `export_partial_stored` of `CvProofs/Export.lean` work for any store
+    limit under the hypothesis "every layer was stored".
 -/
-import CvModel.Export
+import CvProofs.Export
+import CvProofs.ExportExample
+namespace Cv
+variable {α : Type} [DecidableEq α]
+
+/-- `get_edge_name` returns a generator that maps `s1` to `s2`, and finds one whenever there is one -/
+theorem edgeGen_spec (g : Graph α) (s1 s2 : α) :
+    (∀ i, edgeGen g s1 s2 = some i → i < g.nGens ∧ g.act i s1 = s2) ∧
+    ((∃ i, i < g.nGens ∧ g.act i s1 = s2) → (edgeGen g s1 s2).isSome = true) := by
+  exact edgeGen_spec' g s1 s2
+
+/-- non-vacuity: three generators on `Nat`; the edge `5 → 7` is made by generators 1 and 2, the first is returned;
+there is no edge `5 → 9` -/
+example : edgeGen ⟨3, fun i x => x + i + 1, fun x => x, false, 1⟩ 5 7 = some 1 := by decide
+example : edgeGen ⟨3, fun i x => if i = 0 then x + 1 else x + 2, fun x => x, false, 1⟩ 5 7 = some 1 := by decide
+example : edgeGen ⟨3, fun i x => x + i + 1, fun x => x, false, 1⟩ 5 9 = none := by decide
+
+/-- symmetric adjacency exactly when every edge has a reverse edge -/
+theorem adjacency_symm_iff (E : List (Nat × Nat)) :
+    (∀ i j, adjacency E i j = adjacency E j i) ↔ ∀ e ∈ E, (e.2, e.1) ∈ E := by
+  exact adjacency_symm_iff' E
+
+/-- non-vacuity: a symmetric and a non-symmetric edge list -/
+example : ∀ e ∈ [(0, 1), (1, 0), (2, 2)], (e.2, e.1) ∈ [(0, 1), (1, 0), (2, 2)] := by decide
+example : ¬ ∀ e ∈ [(0, 1), (1, 2)], (e.2, e.1) ∈ [(0, 1), (1, 2)] := by decide
+example : adjacency [(0, 1), (1, 2)] 0 1 = true ∧ adjacency [(0, 1), (1, 2)] 1 0 = false := by decide
+
+omit [DecidableEq α] in
+theorem storeLimit_none (c : BfsCfg α) (hs : c.maxStore = none) : c.storeLimit = 10^15 := by
+  simp [BfsCfg.storeLimit, hs]
+
+/-- completed BFS asked for everything: vertices = orbit, numbering follows the layer hashes, edge list = all (v, g v).
+`hsmall` (layers `1 … length-2` have at most `10^15` states) is the extra hypothesis discussed in the header. -/
+theorem export_complete (g : Graph α) (S : List α) (h : BfsHyp g S) (c : BfsCfg α)
+    (he : c.returnEdges = true) (hh : c.returnHashes = true) (hs : c.maxStore = none)
+    (hcomp : (bfs g c S).completed = true)
+    (hsmall : ∀ i n, 0 < i → i + 1 < (bfs g c S).layerSizes.length → (bfs g c S).layerSizes[i]? = some n →
+      n ≤ 10^15) :
+    ∃ V E, allStates (bfs g c S) = some V ∧ edgesList (bfs g c S) = some E ∧
+      V.Nodup ∧ (∀ x, x ∈ V ↔ InOrbit g.nb S x) ∧
+      (bfs g c S).hashes.flatten = V.map g.hash ∧
+      E.Perm (V.flatMap fun v => (List.range g.nGens).map fun i => (V.idxOf v, V.idxOf (g.act i v))) ∧
+      (∀ i j, adjacency E i j = true ↔ ∃ v k, V[i]? = some v ∧ k < g.nGens ∧ V[j]? = some (g.act k v)) := by
+  exact export_complete_stored g S h c he hh
+    (stored_all_complete g S h c hcomp (by rw [storeLimit_none c hs]; exact hsmall)) hcomp
+
+open BfsExample ExportExample in
+/-- non-vacuity: all hypotheses hold for the completed run on the 4-cycle; its vertex list and edge list -/
+example : BfsHyp exG [0] ∧ cE.returnEdges = true ∧ cE.returnHashes = true ∧ cE.maxStore = none ∧
+    (bfs exG cE [0]).completed = true ∧
+    (∀ i n, 0 < i → i + 1 < (bfs exG cE [0]).layerSizes.length → (bfs exG cE [0]).layerSizes[i]? = some n →
+      n ≤ 10^15) ∧
+    allStates (bfs exG cE [0]) = some [0, 1, 3, 2] ∧
+    edgesList (bfs exG cE [0]) = some [(0, 1), (0, 2), (1, 3), (2, 0), (1, 0), (2, 3), (3, 2), (3, 1)] := by
+  refine ⟨exG_hyp [0], rfl, rfl, rfl, E_completed, ?_, E_allStates, E_edgesList⟩
+  rw [E_sizes]
+  intro i n hi hlt hn
+  have : i = 1 := by simp at hlt; omega
+  subst this
+  simp at hn; omega
+
+/-- early-stopped BFS (at least one expansion step): every out-edge of every vertex of a non-final layer is present and
+every other entry is the reversal of an out-edge of the last expanded layer.
+`hsmall` (layers `1 … length-1` have at most `10^15` states) is the extra hypothesis discussed in the header. -/
+theorem export_partial (g : Graph α) (S : List α) (h : BfsHyp g S) (c : BfsCfg α)
+    (he : c.returnEdges = true) (hh : c.returnHashes = true) (hs : c.maxStore = none)
+    (hcomp : (bfs g c S).completed = false) (hstep : 2 ≤ (bfs g c S).layerSizes.length)
+    (hsmall : ∀ i n, 0 < i → (bfs g c S).layerSizes[i]? = some n → n ≤ 10^15) :
+    ∃ V E, allStates (bfs g c S) = some V ∧ edgesList (bfs g c S) = some E ∧ V.Nodup ∧
+      (∀ x, x ∈ V ↔ ∃ j, j < (bfs g c S).layerSizes.length ∧ DistLayer g.nb S j x) ∧
+      (∀ v k j, j + 1 < (bfs g c S).layerSizes.length → DistLayer g.nb S j v → k < g.nGens →
+          (V.idxOf v, V.idxOf (g.act k v)) ∈ E) ∧
+      (∀ e ∈ E, (∃ v k j, j + 1 < (bfs g c S).layerSizes.length ∧ DistLayer g.nb S j v ∧ k < g.nGens ∧
+                    e = (V.idxOf v, V.idxOf (g.act k v))) ∨
+                (∃ v k, DistLayer g.nb S ((bfs g c S).layerSizes.length - 2) v ∧ k < g.nGens ∧
+                    e = (V.idxOf (g.act k v), V.idxOf v))) := by
+  obtain ⟨V, E, h1, h2, h3, h4, -, h6, h7⟩ := export_partial_stored g S h c he hh
+    (stored_all_partial g S h c (by rw [storeLimit_none c hs]; exact hsmall)) hcomp hstep
+  exact ⟨V, E, h1, h2, h3, h4, h6, h7⟩
+
+open BfsExample ExportExample in
+/-- non-vacuity: all hypotheses hold for the run on the 4-cycle interrupted after two expansion steps; the edge list has
+the 6 out-edges of layers 0 and 1 followed by the 4 reversed out-edges of layer 1 -/
+example : BfsHyp exG [0] ∧ cP.returnEdges = true ∧ cP.returnHashes = true ∧ cP.maxStore = none ∧
+    (bfs exG cP [0]).completed = false ∧ 2 ≤ (bfs exG cP [0]).layerSizes.length ∧
+    (∀ i n, 0 < i → (bfs exG cP [0]).layerSizes[i]? = some n → n ≤ 10^15) ∧
+    allStates (bfs exG cP [0]) = some [0, 1, 3, 2] ∧
+    edgesList (bfs exG cP [0]) =
+      some [(0, 1), (0, 2), (1, 3), (2, 0), (1, 0), (2, 3), (3, 1), (0, 2), (0, 1), (3, 2)] := by
+  refine ⟨exG_hyp [0], rfl, rfl, rfl, P_completed, by rw [P_sizes]; decide, ?_, P_allStates, P_edgesList⟩
+  rw [P_sizes]
+  intro i n hi hn
+  have hlt : i < 3 := by
+    have := (List.getElem?_eq_some_iff.1 hn).1
+    simpa using this
+  have : i = 1 ∨ i = 2 := by omega
+  rcases this with rfl | rfl <;> simp at hn <;> omega
+
+omit [DecidableEq α] in
+/-- the size hypothesis is necessary (any graph, any store limit): if a layer other than layer 0 — and other than the
+last layer of a completed run — exceeds the store limit, `all_states` fails -/
+theorem export_needs_store (g : Graph α) (S : List α) (h : BfsHyp g S) (c : BfsCfg α) (i n : Nat)
+    (hi : 0 < i) (hn : (bfs g c S).layerSizes[i]? = some n) (hbig : c.storeLimit < n)
+    (hlast : (bfs g c S).completed = true → i + 1 < (bfs g c S).layerSizes.length) :
+    allStates (bfs g c S) = none := by
+  exact allStates_none_of_big g S h c i n hi hn hbig hlast
+
+/-- `max_layer_size_to_store = None` means the limit `10^15`, not "no limit" -/
+example : ({ maxStore := none } : BfsCfg Nat).storeLimit = 10^15 := rfl
+
+open BfsExample ExportExample in
+/-- non-vacuity / counterexample with a small limit: on the 4-cycle with `max_layer_size_to_store = 1` the run completes,
+edges and hashes are recorded, but layer 1 (two states) is dropped and `all_states` fails -/
+example : cS.returnEdges = true ∧ cS.returnHashes = true ∧ (bfs exG cS [0]).completed = true ∧
+    (bfs exG cS [0]).layerSizes[1]? = some 2 ∧ cS.storeLimit < 2 ∧ allStates (bfs exG cS [0]) = none := by
+  refine ⟨rfl, rfl, S_completed, by rw [S_sizes]; rfl, by decide, S_allStates⟩
+
+open ExportExample in
+/-- the statements WITHOUT `hsmall` are false.  `exBig` (`CvProofs/ExportExample.lean`) is the graph
+`0 → {1, …, 10^15+1} → 10^15+2` on `Nat`; all the hypotheses of the task's `export_complete` / `export_partial` other than
+the value of `completed` hold (`BfsHyp`, edges, hashes, `maxStore = none`, at least one expansion step), and whichever
+value `completed` has, the conclusion `∃ V E, allStates … = some V ∧ …` fails because `allStates … = none`.
+(Proved through the BFS theorems, nothing is evaluated.) -/
+example : ∃ (g : Graph Nat) (c : BfsCfg Nat), BfsHyp g [0] ∧ c.returnEdges = true ∧ c.returnHashes = true ∧
+    c.maxStore = none ∧ 2 ≤ (bfs g c [0]).layerSizes.length ∧ allStates (bfs g c [0]) = none :=
+  ⟨exBig, cE, exBig_hyp, rfl, rfl, rfl, big_allStates_none.1, big_allStates_none.2⟩
+
+end Cv
